@@ -64,7 +64,7 @@ impl<'a> OperationVisitor<'a, ValidationErrorContext> for SingleFieldSubscriptio
                 selection_set_fields
               .into_iter()
               .filter_map(|(field_name, fields_records)| {
-                  if field_name.starts_with("__") {
+                  if fields_records.iter().any(|field| field.name.starts_with("__")) {
                       return Some((field_name, fields_records));
                   }
 
